@@ -70,4 +70,44 @@ theorem gen_validate_eq_model (fams : List Fam) (name desc : Bytes) (typ : MType
     simp only [gen_validate_table]
     cases h1 : (emf.typ != typ) <;> cases h2 : (emf.help != desc) <;> simp [interpValidate]
 
+/-- every entry of the map literal `unitSuffixes` is an entry of the model's `unitTable` (same suffix), and the two have
+the same number of entries — the literal and `unitSuffix` are the same finite map -/
+theorem gen_unit_suffixes_eq_model :
+    (∀ e ∈ Otel.Gen.C18.unitSuffixes, unitSuffix (b e.1) = some (b e.2)) ∧
+    Otel.Gen.C18.unitSuffixes.length = unitTable.length ∧
+    (∀ e ∈ unitTable, (Otel.Gen.C18.unitSuffixes.map (fun x => b x.1)).contains e.1 = true) := by decide
+
+/-! ### collector.scopeInfo: the two scope-info caches -/
+
+/-- `scopeInfo`: a cached metric is returned as it is; a scope remembered as invalid fails without a new attempt;
+otherwise the metric is created once — a failure is remembered in the invalid cache, a success in the valid one — all
+under the collector lock -/
+theorem gen_scope_info_table (hitValid hitInvalid createFails : Bool) :
+    Otel.Gen.C18.scopeInfo hitValid hitInvalid createFails =
+      (if hitValid then ("scopeInfo", ["lock", "deferUnlock", "lookupValid"])
+       else if hitInvalid then ("errScopeInvalid", ["lock", "deferUnlock", "lookupValid"])
+       else if createFails then ("errCreate", ["lock", "deferUnlock", "lookupValid", "create", "rememberInvalid"])
+       else ("scopeInfo", ["lock", "deferUnlock", "lookupValid", "create", "cache"])) := by
+  cases hitValid <;> cases hitInvalid <;> cases createFails <;> rfl
+
+/-- what a leaf does to the model's collector state -/
+def interpScopeInfo (leaf : String × List String) (st : CState) (k : ScopeKey) (made : Option Emitted) (cached : Option Emitted) :
+    CState × Option Emitted :=
+  if leaf.2.contains "rememberInvalid" then ({ st with scopeInvalid := k :: st.scopeInvalid }, none)
+  else if leaf.2.contains "cache" then
+    (match made with | some m => ({ st with scopeInfos := (k, m) :: st.scopeInfos }, some m) | none => (st, none))
+  else if leaf.1 = "scopeInfo" then (st, cached) else (st, none)
+
+/-- `scopeInfo` as written today is the model's `scopeInfoCached` -/
+theorem gen_scope_info_eq_model (esc : Bytes → Bytes) (legacy : Bool) (st : CState) (s : Scope) :
+    scopeInfoCached esc legacy st s =
+      interpScopeInfo
+        (Otel.Gen.C18.scopeInfo (st.scopeInfos.lookup s.key).isSome (st.scopeInvalid.contains s.key)
+          (scopeInfoOfKey esc legacy s.key).isNone)
+        st s.key (scopeInfoOfKey esc legacy s.key) (st.scopeInfos.lookup s.key) := by
+  rw [gen_scope_info_table]
+  unfold scopeInfoCached interpScopeInfo
+  cases h1 : st.scopeInfos.lookup s.key <;> cases h2 : st.scopeInvalid.contains s.key <;>
+    cases h3 : scopeInfoOfKey esc legacy s.key <;> simp
+
 end Otel.C18.GenTie
